@@ -569,8 +569,6 @@ def _check_adjoint(ctx, case):
         o = np.random.default_rng(case["seed"] + 3).standard_normal((S, Ro, Co))
         o_list, gathers = list(o), [oo.ravel()[idx] for oo in o]
     out_n = _np(out)
-    if np.iscomplexobj(out_n) != is_c:
-        _fail(case, "sum_patches changed real/complex kind of the patches")
     _judge_adjoint(ctx, case, "adjoint", idx, y, out_n, (Ro, Co), o_list, gathers, bits32)
 
 
@@ -704,8 +702,6 @@ def _check_chain(ctx, case):
             rel = 1e-10
         else:
             rel = 1e-5
-        if np.any(inten_n < -rel * p0):
-            _fail(case, "negative predicted intensity")
         _judge(case, "chain", np.abs(inten_n.sum(axis=(-2, -1)) - p0), rel * p0, "sum of predicted intensity of a pattern == total probe intensity")
 
         # adjointness on the real patch indices (complex path, quantem's own gather)
@@ -814,10 +810,10 @@ def search(ctx):
     even_only = ctx.is_open(KEY_ODD_PROJ)
     if even_only:
         ctx.exclude(KEY_ODD_PROJ)
-    run("proj", proj_cases(even_only=even_only), 250, 1500)
-    run("adjoint", adjoint_cases(), 300, 2000)
-    run("shift", shift_cases(), 500, 3500)
-    run("prop", prop_cases(), 250, 1500)
-    run("chain", chain_cases(), 250, 1500)
+    run("proj", proj_cases(even_only=even_only), 300, 3000)
+    run("adjoint", adjoint_cases(), 400, 4000)
+    run("shift", shift_cases(), 700, 7000)
+    run("prop", prop_cases(), 300, 3000)
+    run("chain", chain_cases(), 300, 3000)
     for k, v in STATS.items():
         ctx.extra["max_err_over_tol: " + k] = round(v, 6)
